@@ -10,6 +10,9 @@
    so a reported orientation has "the supplied cell's parameters to within what the tolerance allows" iff its metric
    differs from the supplied one by no more than that E (the trial orientation itself must have the cell exactly)
  * expected hit lists of indexer.find (closest-angle mode and the all-candidates mode of cosine_tol < 0)
+ * the competing-owner table of fight_over_peaks (which accepted matrices hold a peak within hkl_tol, ranked by error)
+ * cells drawn at random inside a lattice class (no pseudo-symmetry: edges at least 10% apart, angles at least 6 degrees
+   from 90 / from each other's special values) and a .gve writer (the file indexer.readgvfile reads)
 """
 import math
 import numpy as np
@@ -96,6 +99,19 @@ def brute_hkls(cell, cen, dsmax):
     m = ds < dsmax
     order = np.lexsort((hkl[m][:, 2], hkl[m][:, 1], hkl[m][:, 0], np.round(ds[m] / dsmax, 9)))
     return hkl[m][order], ds[m][order]
+
+
+def row_population(hkl):
+    """the largest number of reflections of the list on one row through the origin (both directions counted)"""
+    hkl = np.asarray(hkl, int)
+    if len(hkl) == 0:
+        return 0
+    g = np.gcd.reduce(np.abs(hkl), axis=1)
+    prim = hkl // g[:, None]
+    first = np.array([row[np.nonzero(row)[0][0]] for row in prim])
+    prim = prim * np.sign(first)[:, None]
+    _, counts = np.unique(prim, axis=0, return_counts=True)
+    return int(counts.max())
 
 
 def ring_families(hkl, ds, ringds, ds_tol):
@@ -232,3 +248,173 @@ def expected_hits(gv, i1, i2, coses, cosine_tol):
             if diff[a, b] < tol - EPS_COS:
                 must.add((int(i1[a]), int(i2[b])))
     return must, may
+
+
+# ---------------------------------------------------------------------------------------------- fight_over_peaks
+def fight_table(ubis, gv, tol):
+    """fit[p] = [[k, rank], ...] (k = 1-based position of an accepted matrix holding peak p within tol, rank = rank of its
+    own hkl error among them, equal ranks = exact tie), amb = 1-based peaks where the order of two errors or of an error
+    and tol^2 cannot be trusted in floating point, win[p] = the owner the competing-owner rule gives (0-based, -1 none)"""
+    n = len(gv)
+    t2 = float(tol) ** 2
+    fit = [[] for _ in range(n)]
+    errs = [[] for _ in range(n)]
+    amb = set()
+    for k, u in enumerate(ubis):
+        e2 = hkl_err2(u, gv)
+        sure = e2 < t2 * (1 - REL) - 1e-300
+        maybe = (e2 < t2 * (1 + REL)) & ~sure
+        for p in np.nonzero(sure | maybe)[0]:
+            errs[p].append((k + 1, float(e2[p])))
+        for p in np.nonzero(maybe)[0]:
+            amb.add(int(p) + 1)
+    win = np.full(n, -1)
+    for p in range(n):
+        if not errs[p]:
+            continue
+        vals = sorted(set(e for _, e in errs[p]))
+        for a, b in zip(vals, vals[1:]):
+            if b - a <= REL * t2:
+                amb.add(p + 1)
+        fit[p] = [[k, vals.index(e)] for k, e in errs[p]]
+        win[p] = min(errs[p], key=lambda ke: (ke[1], ke[0]))[0] - 1
+    return fit, sorted(amb), win
+
+
+# ---------------------------------------------------------------------------------------------- cells of a class
+CENTRING_FACTOR = {"P": 1, "A": 2, "B": 2, "C": 2, "I": 2, "F": 4, "R": 3}
+
+
+def cell_volume(cell):
+    return float(abs(np.linalg.det(real_L(cell))))
+
+
+PRIMITIVE = {"P": [[1, 0, 0], [0, 1, 0], [0, 0, 1]], "I": [[-.5, .5, .5], [.5, -.5, .5], [.5, .5, -.5]],
+             "F": [[0, .5, .5], [.5, 0, .5], [.5, .5, 0]], "C": [[.5, -.5, 0], [.5, .5, 0], [0, 0, 1]],
+             "A": [[1, 0, 0], [0, .5, -.5], [0, .5, .5]], "B": [[.5, 0, -.5], [0, 1, 0], [.5, 0, .5]],
+             "R": [[2 / 3., 1 / 3., 1 / 3.], [-1 / 3., 1 / 3., 1 / 3.], [-1 / 3., -2 / 3., 1 / 3.]]}
+_M3 = None
+
+
+def reduced_basis(cell, cen):
+    """rows = a reduced primitive basis of the (centred) lattice: pairwise size reduction and b3 +- b1 +- b2 until stable"""
+    P = np.array(PRIMITIVE[cen], float) @ real_L(cell)
+    for _ in range(100):
+        P = P[np.argsort((P * P).sum(axis=1), kind="stable")]
+        changed = False
+        for i in range(3):
+            for j in range(3):
+                if i != j:
+                    m = round(float(P[i] @ P[j]) / float(P[j] @ P[j]))
+                    if m:
+                        P[i] = P[i] - m * P[j]
+                        changed = True
+        best = P[2]
+        for s1 in (-1, 0, 1):
+            for s2 in (-1, 0, 1):
+                c = P[2] + s1 * P[0] + s2 * P[1]
+                if c @ c < best @ best * (1 - 1e-12):
+                    best, changed = c, True
+        P[2] = best
+        if not changed:
+            break
+    return P
+
+
+def lattice_symmetries(cell, cen, eps):
+    """number of unimodular integer matrices (entries -1, 0, 1: enough on a reduced basis) that keep the metric of the
+    lattice within eps (element ij relative to |b_i| |b_j|): the order of the lattice's point group when eps is tiny,
+    and the number of approximate symmetries otherwise"""
+    global _M3
+    if _M3 is None:
+        g = np.array(np.meshgrid(*[[-1, 0, 1]] * 9, indexing="ij")).reshape(9, -1).T.reshape(-1, 3, 3).astype(float)
+        _M3 = g[np.abs(np.abs(np.linalg.det(g)) - 1) < 1e-9]
+    P = reduced_basis(cell, cen)
+    G = P @ P.T
+    D = _M3 @ G @ np.transpose(_M3, (0, 2, 1)) - G
+    d = np.sqrt(np.diag(G))
+    return int(((np.abs(D) / np.outer(d, d)).reshape(len(_M3), -1).max(axis=1) <= eps).sum())
+
+
+HOLOHEDRY = {"cubic": 48, "hexagonal": 24, "tetragonal": 16, "orthorhombic": 8, "monoclinic": 4, "rhombohedral": 12, "triclinic": 2}
+
+
+def random_cell(rng, cls, nrefl=70):
+    """(cell, centring, dsmax) of a cell drawn inside the class and WITHOUT pseudo-symmetry: its lattice has exactly the
+    symmetries of the class and no further approximate one (metric kept within 6%); dsmax so that a grain holds about
+    nrefl reflections"""
+    for _ in range(200):
+        cell, cen, dsmax = _draw_cell(rng, cls, nrefl)
+        if lattice_symmetries(cell, cen, 1e-9) == HOLOHEDRY[cls] == lattice_symmetries(cell, cen, 0.06):
+            return cell, cen, dsmax
+    raise ValueError("no cell without pseudo-symmetry drawn for " + cls)
+
+
+def _draw_cell(rng, cls, nrefl):
+    def u(a, b):
+        return float(rng.uniform(a, b))
+
+    def pick(seq):
+        return seq[int(rng.integers(0, len(seq)))]
+
+    def edges():
+        a = u(3.8, 5.0)
+        b = a * u(1.1, 1.25)
+        c = b * u(1.1, 1.25)
+        e = [a, b, c]
+        return [e[i] for i in rng.permutation(3)]
+
+    def off90():
+        return 90.0 + pick([-1.0, 1.0]) * u(6.0, 18.0)
+    if cls == "cubic":
+        a = u(2.8, 5.5)
+        cell, cen = (a, a, a, 90.0, 90.0, 90.0), pick(["P", "I", "F"])
+    elif cls == "hexagonal":
+        a = u(2.6, 3.6)
+        cell, cen = (a, a, a * u(1.25, 1.9), 90.0, 90.0, 120.0), "P"
+    elif cls == "tetragonal":
+        a = u(3.2, 4.8)
+        cell, cen = (a, a, a * pick([u(0.6, 0.85), u(1.2, 1.8)]), 90.0, 90.0, 90.0), pick(["P", "I"])
+    elif cls == "orthorhombic":
+        a = u(3.5, 4.5)
+        b = a * u(1.1, 1.3)
+        cell, cen = (a, b, b * u(1.1, 1.3), 90.0, 90.0, 90.0), pick(["P", "C", "A", "I", "F"])
+    elif cls == "monoclinic":
+        a, b, c = edges()
+        ang = u(96.0, 112.0)
+        if rng.random() < 0.5:
+            cell, cen = (a, b, c, 90.0, ang, 90.0), pick(["P", "C"])           # unique axis b
+        else:
+            cell, cen = (a, b, c, 90.0, 90.0, ang), pick(["P", "B"])           # unique axis c
+    elif cls == "rhombohedral":
+        if rng.random() < 0.5:
+            a = u(4.5, 5.5)
+            cell, cen = (a, a, a * u(2.3, 2.9), 90.0, 90.0, 120.0), "R"
+        else:
+            a = u(4.5, 5.5)
+            al = pick([u(54.0, 57.5), u(63.0, 80.0)])
+            cell, cen = (a, a, a, al, al, al), "P"
+    elif cls == "triclinic":
+        a, b, c = edges()
+        cell, cen = (a, b, c, off90(), off90(), off90()), "P"
+    else:
+        raise ValueError(cls)
+    dsmax = (nrefl * CENTRING_FACTOR[cen] / (4.0 / 3.0 * math.pi * cell_volume(cell))) ** (1.0 / 3.0)
+    return tuple(float(x) for x in cell), cen, float(dsmax)
+
+
+# ---------------------------------------------------------------------------------------------- .gve file
+def write_gve(path, cell, cen, wavelength, gv):
+    """the text file indexer.readgvfile reads: cell line, wavelength, wedge, (an hkl list the reader skips), then
+    gx gy gz xc yc ds eta omega; numbers written with repr so that the g-vectors read back are the supplied ones"""
+    gv = np.asarray(gv, float)
+    with open(path, "w") as f:
+        f.write(" ".join(repr(float(x)) for x in cell) + " " + cen + "\n")
+        f.write("# wavelength = %r\n" % float(wavelength))
+        f.write("# wedge = 0.000000\n")
+        f.write("# ds h k l\n")
+        f.write("#  gx  gy  gz  xc  yc  ds  eta  omega\n")
+        for k, g in enumerate(gv):
+            ds = math.sqrt(float(g[0]) ** 2 + float(g[1]) ** 2 + float(g[2]) ** 2)
+            f.write("%r %r %r %.1f %.1f %r %.4f %.4f\n" % (float(g[0]), float(g[1]), float(g[2]), 100.0 + k % 900, 100.0 + k // 900,
+                                                          ds, 10.0 + (k * 37) % 160, float(k % 180) - 90.0))
